@@ -438,6 +438,8 @@ pub fn nontrivial(prop: &str, c: &BTreeMap<String, u64>) -> bool {
         "C13" => g("vacuums") > 0 && g("state_checks") > 0,
         "C15" => g("ddl_in_session") > 0,
         "C16" => g("failed_statements_in_session") > 0,
+        "C10" => g("runs_with_splits") > 0,
+        "C11" => g("pages_freed") > 0 && g("allocations_from_free_list") > 0,
         "C14" => g("context_switches") >= 10 && g("failed_polls") >= 1,
         "C20" => (g("pipe_fragmented_reads") + g("pipe_read_eintr") + g("pipe_short_writes")) > 0 && (g("truncated_streams") + g("garbage_streams") + g("mutated_frames") + g("mangled_frames")) > 0,
         "C17" => g("reads_nonempty_correct") > 0 && (g("reopens") + g("truncations") + g("appends_near_block_size")) > 0,
